@@ -9,9 +9,12 @@ for d in harmless/${1:-}*/; do
   git -C /repo worktree add -q --detach "$wt" HEAD || exit 3
   git -C "$wt" apply "/verif/$d/patch.diff" || { echo "$n: patch does not apply"; git -C /repo worktree remove --force "$wt"; continue; }
   ( cd "$wt" && PYTHONPATH="$wt/src" /venv/bin/python -m pytest -q -p no:cacheprovider tests --deselect tests/render/test_draw.py::test_fixtures --deselect tests/utils/test_tex.py::test_measure 2>&1 | tail -1 | sed "s|^|$n pytest: |" )
-  out=$(SUPERREC2_REPO="$wt" ./check "$p" 2>&1 | grep -E "^VIOLATION|^OK|INFRA" | tail -1)
-  echo "$n / $p: $out"
-  git checkout -- "evidence/$p.json" 2>/dev/null
+  if [ -f "$d/checks" ]; then ids=$(cat "$d/checks"); else ids="$p"; fi
+  for id in $ids; do
+    out=$(SUPERREC2_REPO="$wt" ./check "$id" 2>&1 | grep -E "^VIOLATION|^OK|INFRA" | tail -1)
+    echo "$n / $id: $out"
+    git checkout -- "evidence/$id.json" 2>/dev/null
+  done
   git -C /repo worktree remove --force "$wt"
 done
 tools/regen.sh >/dev/null
